@@ -18,6 +18,8 @@ Definition unseeded_public : list string :=
 Definition obligations : bool :=
   is_nil module_writes &&                                   (* no function modifies a module-level table *)
   is_nil default_arg_writes &&                              (* no function modifies a mutable default argument *)
+  is_nil argument_writes &&                                 (* no raster function modifies an argument in place (C10's
+                                                               verdict): the same objects passed again carry the same values *)
   is_nil global_rebinds &&                                  (* no global / nonlocal rebinding *)
   is_nil func_attr_writes &&                                (* no cache hidden in a function attribute *)
   is_nil cache_decorated &&                                 (* no memoising decorator *)
